@@ -460,6 +460,20 @@ def run(repo, rep, tier):
                     'does not raise CIM_ERR_NOT_SUPPORTED when pull '
                     'operations are disabled')
 
+    # ---------------- R8: refusals can be built ---------------------------
+    r8 = rep.rule('C14.R8', 'error messages of the pull machinery can be '
+                  'built (well-formed format strings)')
+    from ..guards import run_format_rule
+    pull_funcs = set(PULL_FOR_OPEN) | {
+        'PullInstancesWithPath', 'PullInstancePaths', 'PullInstances',
+        'CloseEnumeration', '_open_response', '_pull_response',
+        '_openquery_response', '_validate_open_params',
+        '_validate_pull_operations_enabled'}
+    run_format_rule(repo, rep, r8, lambda f: (
+        f.file == MAIN and f.name in pull_funcs) or (
+        f.file == OPS and f.name in (
+            '_validate_MaxObjectCount_OpenPull', '_validate_context',
+            '_validate_MaxObjectCount_Iter', '_validate_OperationTimeout')))
     # ---------------- R6 -------------------------------------------------
     noret = no_return_funcs(repo, mp)
     pulls = {}
